@@ -774,7 +774,9 @@ def run(res, tier, seed):
         if r["stream"] != r["regex"]:
             res.violation({"what": "a custom dice registered as a stream parser that reports only `Matched` behaves differently from the equivalent regular "
                                    "expression (the handler must receive the matched text as groups[0]; the process text shows it)",
-                           "input": r["src"], "stream_parser": r["stream"], "regular_expression": r["regex"]})
+                           "input": r["src"], "parser_style": {0: "plain", 1: "two forms, resets the attempt itself and reads on", 2: "peeks / unreads / asks positions",
+                                                                   3: "reads far ahead, resets twice"}.get(r.get("style", 0)),
+                           "stream_parser": r["stream"], "regular_expression": r["regex"]})
             break
     if KEY_ORDER in known:
         res.known(known[KEY_ORDER]["what"] + f" [programs skipped for this reason in this run: {skipped + distB['skipped_map_order_nondeterminism']}]")
